@@ -2,7 +2,7 @@
 
 PROP = dict(
     module="JadeModel.Props.C03All", ns="Jade.C01",
-    required=["C01_batch_ids_nodup", "C01_job_in_at_most_one_batch", "C01_batches_containing_le_one",
+    required=["C01_multinode_node_launches_at_most_once", "C01_batch_ids_nodup", "C01_job_in_at_most_one_batch", "C01_batches_containing_le_one",
               "C01_shared_job_same_batch", "C01_started_at_most_once", "C01_started_in_its_batch", "C01_single_holder", "C01_complete_accounting"],
     suites=["system", "batch"],
     level_text="Machine-checked invariants of the system model Jade.Sys (processes, files, virtual SLURM) by induction over "
@@ -10,7 +10,7 @@ PROP = dict(
                "completions, any number of processes, kills and injected failures included. The model is tied to the code by "
                "replaying the event history of real executions (real CLI entry points under a deterministic scheduler) "
                "through the model's step function: every real event must be accepted with identical data; the sbatch guard "
-               "used by the proof is what C07 proves of the batching algorithm.",
+               "used by the proof is what C07 proves of the batching algorithm. Multi-node allocations: every node of an allocation launches its own copy of each job of the batch by design; each node does so at most once (C01_multinode_node_launches_at_most_once), and 'started at most once' is read per node there.",
     level_note="Trusted: Lean kernel (+3 standard axioms), harness/vcluster.py (process boundary fakes, event log), the event "
                "translation, atomicity of one boundary event (lock sections; lockset recorded with every file mutation). "
                "The terminal clause (complete fault-free run: every job in exactly one batch and started once, or canceled "
